@@ -5,9 +5,10 @@ namespace GA.Drv.HeapE
 open GA.Drv GA.Heap GA.Own GA.Ops
 
 def layoutOf : String → Nat × Nat
-  | "u32" => (4, 4) | "u64" => (8, 8) | "b3" => (3, 1) | "tr" => (8, 8) | _ => (0, 1)
+  | "u32" => (4, 4) | "u64" => (8, 8) | "b3" => (3, 1) | "tr" => (8, 8) | "z8" => (0, 8) | _ => (0, 1)
 
-def answer (kv : KV) : String :=
+def answer (kv : KV) (bg : Nat → Nat → Nat → (Nat → Option Id) → Bool → BoxedOut := boxedGenerate)
+    (only : Bool := false) : String :=
   let op := kv.getD "op" ""
   if op.startsWith "big_" then "res=ok" else
   match kv.nat? "n" with
@@ -16,7 +17,7 @@ def answer (kv : KV) : String :=
     let kind := kv.getD "kind" "u32"
     let (esz, al) := layoutOf kind
     let tracked := kind = "tr" || kind = "z"
-    let zst := kind = "z" || kind = "unit"
+    let zst := kind = "z" || kind = "unit" || kind = "z8"
     let idOf (i : Nat) : Nat := if zst then 0 else if kind = "b3" then i % 256 else i
     let showDrops (l : List Nat) : String :=
       if !tracked then "" else
@@ -29,10 +30,11 @@ def answer (kv : KV) : String :=
     let cap := max (kv.natD "cap" l) l
     let src := (List.range l).map (· + 1)
     let arr := (List.range n).map (· + 1)
+    if only && op != "boxed_generate" && op != "default_boxed" then "n/a" else
     match op with
     | "boxed_generate" | "default_boxed" =>
       let allocOk := !(fault.startsWith "alloc:")
-      let r := boxedGenerate esz al n f allocOk
+      let r := bg esz al n f allocOk
       match r.res with
       | .aborted => "res=abort(alloc_error)"
       | .ub => "res=abort(ub)"
@@ -44,7 +46,8 @@ def answer (kv : KV) : String :=
           | .ok a => ("ok", a)
           | _ => ("panicked", [])
         let ncalls := (r.etrace.filter fun e => match e with | .take .. => true | .panic .. => true | _ => false).length
-        s!"res={res} items=[{showNats (items.map idOf)}] calls={ncalls} block_req={req} block_free={fre} zero_req={zr}{showDrops (drops r.etrace)}"
+        let al := if res = "ok" then " aligned=1" else ""     -- a misaligned box is `.ub` above
+        s!"res={res} items=[{showNats (items.map idOf)}] calls={ncalls} block_req={req} block_free={fre} zero_req={zr}{al}{showDrops (drops r.etrace)}"
     | "try_from_vec" =>
       match tryFromVec src cap n with
       | .ok it same => s!"res=ok items=[{showNats (it.map idOf)}]{if l = cap then s!" same_block={if same then 1 else 0}" else ""}{showDrops it}"
